@@ -90,3 +90,6 @@ W size_t v_strspn(const char *a, const char *b) { return strspn(a, b); }
 W size_t v_strcspn(const char *a, const char *b) { return strcspn(a, b); }
 W char *v_strpbrk(const char *a, const char *b) { return strpbrk(a, b); }
 W char *v_strsep(char **a, const char *b) { return strsep(a, b); }
+W int v_fileno(FILE *f) { return fileno(f); }
+W int v_ftruncate(int fd, off_t l) { return ftruncate(fd, l); }
+W int v_fsync(int fd) { return fsync(fd); }
